@@ -154,6 +154,14 @@ def answers_for(kind, size):
             Q, Sg, T, q0, F = spaces.nfa_parts(s, 's', 'ε')
             A = fa.from_parts(Q, Sg, T, q0, F, 'ε')
             yield nfa_text(Q, Sg, T, q0, F, 'ε'), (lambda L, A=A: fa.language(A, L)), len(Q), ('nfa', s)
+        for n in (5, 6, 7, 8):
+            # long epsilon chains (a closure computed by repeated squaring needs ceil(log2 n) rounds)
+            for idx, s in spaces.nfa_chains(n):
+                if idx % 97 not in (0, 1):
+                    continue
+                Q, Sg, T, q0, F = spaces.nfa_parts(s, 'q', '_')
+                A = fa.from_parts(Q, Sg, T, q0, F, '_')
+                yield nfa_text(Q, Sg, T, q0, F, '_'), (lambda L, A=A: fa.language(A, L)), len(Q), ('nfa', s)
     elif kind == 'regexp':
         for idx, r in rx.trees_up_to(4 if size == 's' else 5):
             sy = sorted(rx.symbols(r))
@@ -180,6 +188,15 @@ def answers_for(kind, size):
         for idx, s in tm.tms(1, 2):
             Q, sigma, gamma, delta, q0, qa, qr, blank = tm.parts(s)
             yield c13.text_of(c17.desc_tm(s, '_')), (lambda L, p=(delta, q0, qa, qr, blank), sigma=sigma: {w for w in spaces.words(sigma, L) if tm.run(p[0], p[1], p[2], p[3], p[4], w, 1000)[0] is True}), 3, ('tm', s)
+        for idx, s in tm.tms(1, 3):
+            if idx % 7:
+                continue
+            for blank in ('_', 'x'):
+                # two machines that differ only in which symbol of the same tape alphabet is the blank
+                Q, sigma, gamma, delta, q0, qa, qr, blank = tm.parts(s, blank, gamma=['a', '_', 'x'], sigma=['a'])
+                lines = ['states ' + ' '.join(Q), 'initial ' + q0, 'accept ' + qa, 'reject ' + qr, 'input_symbols a', 'tape_symbols a _ x', 'blank ' + blank]
+                lines += ['{} {} {}{},{}'.format(p, v[0], a, v[1], v[2]) for (p, a), v in delta.items()]
+                yield '\n'.join(lines), (lambda L, p=(delta, q0, qa, qr, blank): {w for w in spaces.words(['a'], L) if tm.run(p[0], p[1], p[2], p[3], p[4], w, 1000)[0] is True}), 3, ('tm', s, blank)
 
 
 def reference_word_sets(length):
@@ -559,6 +576,14 @@ def t_unary(acc, shard, nshard):
                                 acc.viol('check_dfa_minimal', 'OK although the answer is not a minimal DFA for the language', inst, repro=rp, observed={'states': len(X.Q), 'classes': ncls})
                             else:
                                 acc.nontrivial += 1
+                    for short in (1, 2):
+                        # the same exercise with a short length bound: the state count is then the only safeguard
+                        ok, res = core.lib_call(acc, 'check_dfa_minimal', dict(inst, length=short), run_checker, nd.check_dfa_minimal, rtext, text, short, repro=rp)
+                        acc.transitions += 1
+                        if ok and res[0]:
+                            acc.evals += 1
+                            if fa.language(X, short, Sg) != fa.language(R, short) or len(X.Q) != ncls:
+                                acc.viol('check_dfa_minimal', 'OK although the answer is not a minimal DFA for the language', dict(inst, length=short), repro=rp, observed={'states': len(X.Q), 'classes': ncls})
             # --- reverse: answers = reference reverse NFA, its single-edit mutants, all NFA(2,k,<=3)
             from mc.props.c14 import ref_reverse
             rv = ref_reverse(R)
